@@ -1545,3 +1545,22 @@ def handed_to_unknown(fn, flow, uses, known=()):
         break
       cur = up
   return None
+
+
+def called_elsewhere(w, method, known):
+  """Qualified names of functions other than `known` that call a method / function of this name:
+  when an anchor call has vanished from the function a rule reads, a new caller elsewhere means
+  the mechanism moved (cannot be followed) rather than was dropped."""
+  idx = w.__dict__.setdefault("_c_callers", {})
+  if method not in idx:
+    out = set()
+    for fi in w.repo.all_functions():
+      for x in ast.walk(fi.node):
+        if isinstance(x, ast.Call) and \
+            ((isinstance(x.func, ast.Attribute) and x.func.attr == method) or
+             (isinstance(x.func, ast.Name) and x.func.id == method)):
+          out.add(fi.qualname)
+          break
+    idx[method] = out
+  return sorted(q for q in idx[method] if q not in known and
+                not any(q.startswith(k + ".") for k in known))
